@@ -382,8 +382,8 @@ theorem mono_roomGranted (p : Pool) (m : Nat) (r : Req) : Mono p (p.roomGranted 
     mono_eq
   · exact Mono.refl _
 
-theorem mono_wakeWaitRoom (p : Pool) (m : Nat) (r : Req) : Mono p (p.wakeWaitRoom m r) := by
-  unfold wakeWaitRoom
+theorem mono_wakeWaitRoomCore (p : Pool) (m : Nat) (r : Req) : Mono p (p.wakeWaitRoomCore m r) := by
+  unfold wakeWaitRoomCore
   simp only
   have h0 : Mono p (({ p with sem := { p.sem with waiters := (removeWaiterL m p.sem.waiters).2 } } : Pool).modReq m
       fun x => { x with mustCancel := false }) := by
@@ -396,6 +396,12 @@ theorem mono_wakeWaitRoom (p : Pool) (m : Nat) (r : Req) : Mono p (p.wakeWaitRoo
     · exact h0.trans (mono_roomGranted _ m r)
     · exact h0
 
+theorem mono_wakeWaitRoom (p : Pool) (m : Nat) (r : Req) : Mono p (p.wakeWaitRoom m r) := by
+  unfold wakeWaitRoom
+  split
+  · exact mono_wakeWaitRoomCore p m r
+  · exact Mono.refl p
+
 theorem mono_mapSemGranted (p : Pool) (m : Nat) (r : Req) : Mono p (p.mapSemGranted m r) := by
   unfold mapSemGranted
   simp only
@@ -405,8 +411,8 @@ theorem mono_mapSemGranted (p : Pool) (m : Nat) (r : Req) : Mono p (p.mapSemGran
   · exact h1.trans (mono_mapLoop m _ _)
   · exact h1
 
-theorem mono_wakeWaitMapSem (p : Pool) (m : Nat) (r : Req) : Mono p (p.wakeWaitMapSem m r) := by
-  unfold wakeWaitMapSem
+theorem mono_wakeWaitMapSemCore (p : Pool) (m : Nat) (r : Req) : Mono p (p.wakeWaitMapSemCore m r) := by
+  unfold wakeWaitMapSemCore
   simp only
   generalize (if ((removeWaiterL m r.mapSem.waiters).1 == some WaitSt.granted) = true then _ else _ : Sem × Option Nat) = s2
   have h0 : Mono p ((p.modReq m fun x => { x with mapSem := s2.1, mustCancel := false }).schedOpt s2.2) := by
@@ -417,6 +423,12 @@ theorem mono_wakeWaitMapSem (p : Pool) (m : Nat) (r : Req) : Mono p (p.wakeWaitM
   · split
     · exact h0.trans (mono_mapSemGranted _ m r)
     · exact h0
+
+theorem mono_wakeWaitMapSem (p : Pool) (m : Nat) (r : Req) : Mono p (p.wakeWaitMapSem m r) := by
+  unfold wakeWaitMapSem
+  split
+  · exact mono_wakeWaitMapSemCore p m r
+  · exact Mono.refl p
 
 theorem mono_stepMeta (p : Pool) (m : Nat) : Mono p (p.stepMeta m) := by
   unfold stepMeta
